@@ -24,8 +24,9 @@ def seeded_table():
         except Exception:
             m = {}
         log = open(os.path.join(d, "verify.log")).read() if os.path.exists(os.path.join(d, "verify.log")) else ""
+        chklog = log.split("== first contact")[-1] if "== first contact" in log else log
         suite = re.search(r"ctest[^\n]*: exit (\d+) : ([^\n]*)", log)
-        nv = len(re.findall(r"^VIOLATION", log, re.M)); nnf = len(re.findall(r"no-failing-input-found", log))
+        nv = len(re.findall(r"^VIOLATION property=", chklog, re.M)); nnf = len(re.findall(r"^VIOLATION property=.*no-failing-input-found", chklog, re.M))
         demo = re.findall(r"demo on (clean|patched) tree: exit (\d+)", log)
         chk = "not run yet" if not log else ("CAUGHT: %d VIOLATION line(s), %d with a concrete replay" % (nv, nv - nnf) if nv else "MISSED (exit 0)")
         note = m.get("verif_note", "")
